@@ -118,7 +118,9 @@ static int vp_x_build_io(struct hwloc_topology *t)
   s->pcidev->attr->pcidev.revision = 3; s->pcidev->attr->pcidev.prog_if = 2;
   s->osdev = vp_ins_child(t, s->pcidev, HWLOC_OBJ_OS_DEVICE, HWLOC_UNKNOWN_INDEX);
   s->osdev->attr->osdev.types = HWLOC_OBJ_OSDEV_STORAGE; s->osdev->name = strdup("nvme0n1"); s->osdev->subtype = strdup("Disk"); fx_info(s->osdev, "Size", "1024"); }
-  if (FIXM & 64) { s->misc = vp_ins_child(t, fx_pu3, HWLOC_OBJ_MISC, HWLOC_UNKNOWN_INDEX); s->misc->name = strdup("note"); }
+  if (FIXM & 64) { s->misc = vp_ins_child(t, fx_pu3, HWLOC_OBJ_MISC, HWLOC_UNKNOWN_INDEX); s->misc->name = strdup("note");
+    /* a memory module as the dmi code describes it: the importer has a compatibility rewrite for exactly this subtype and info in OLD documents */
+    s->misc->subtype = strdup("MemoryModule"); fx_info(s->misc, "Size", "16777216"); }
 #else
   (void) t;
 #endif
